@@ -1,7 +1,7 @@
 """C08 - subcommands scope what follows them."""
 from vlib import *
 import defs as D, cmdline_sig
-from cmdline_check import run_cmdline_property
+from cmdline_check import run_cmdline_property, run_tree_groups, merge_cov
 
 
 def families(tier):
@@ -15,9 +15,13 @@ def run(v):
     cov = run_cmdline_property(v, families(v.tier), "MC_CmdLine_design.cfg", signature=cmdline_sig.signature, ledger_every=(6 if v.tier == "quick" else 1),
                                driver={"defs": big, "n": 20000 if v.tier == "quick" else 300000, "maxlen": 12, "mutate": 0.6,
                                        "extras": ("help",)})
+    q = v.tier == "quick"
+    cov = merge_cov(cov, run_tree_groups(v, SEED + 880, 12 if q else 60, 4 if q else 5, 1500 if q else 12000, ("alt", "adj"),
+                                         cmdline_sig.signature, ledger_every=3 if q else 1), "tree_groups")
     cov["rule"] = ("command trees of depth <= 3 with aliases, short aliases, optional commands and leaf positionals; all lines up "
                    "to maxlen incl. deeper items left of their command name, unknown commands, `--` before a command name, "
-                   "help after every command name; ScopeAfterCommand checked by TLC")
+                   "help after every command name; ScopeAfterCommand checked by TLC; plus commands whose own level holds choices and adjacent "
+                   "groups (TreeLine.tla: TScope - the command's part is its level run on its own on the items after the name)")
     cov["exhaustive"] = True
     return v.finish("model_checking", cov, ["an enclosing level's option right of a subcommand name is outside the quantifier and only counted"])
 
